@@ -133,6 +133,22 @@ def gen(force=False):
         m = re.search(cname + r'\[16\]\s*=\s*\{([^}]*)\}', utf)
         vals = [str(int(x.strip(), 0)) for x in m.group(1).split(',') if x.strip()] if m else []
         L.append('def %s : List Nat := [%s]' % (lname, ', '.join(vals)))
+    # the scheme table and its length index (src/url.cpp): kLengthToSchemesInd / max_scheme_length are file-static,
+    # so this too is read from the source text; the lookups they produce are observed by execution above (schemeinfo)
+    ucpp = open(os.path.join(REPO, 'src', 'url.cpp')).read()
+    m = re.search(r'kSchemes\[\]\s*=\s*\{(.*?)\n\};', ucpp, flags=re.S)
+    rows = re.findall(r'\{\s*\{\s*"([^"]*)"\s*,\s*(\d+)\s*\}\s*,\s*(-?\d+)\s*,\s*(\d)\s*,\s*(\d)\s*,\s*(\d)\s*,\s*(\d)\s*\}', m.group(1) if m else '')
+    L.append('/-- url::kSchemes as written in src/url.cpp (names, declared lengths, default ports (-1 = none), is_special, is_file) -/')
+    L.append('def schemeNames : List (List Nat) := [%s]' % ', '.join('[' + ', '.join(str(ord(c)) for c in r[0]) + ']' for r in rows))
+    L.append('def schemeDeclLens : List Nat := [%s]' % ', '.join(r[1] for r in rows))
+    L.append('def schemePorts : List Int := [%s]' % ', '.join(r[2] for r in rows))
+    L.append('def schemeSpecial : List Bool := [%s]' % ', '.join('true' if r[3] == '1' else 'false' for r in rows))
+    L.append('def schemeFile : List Bool := [%s]' % ', '.join('true' if r[4] == '1' else 'false' for r in rows))
+    m = re.search(r'max_scheme_length\s*=\s*(\d+)', ucpp)
+    L.append('def maxSchemeLength : Nat := %s' % (m.group(1) if m else '0'))
+    m = re.search(r'kLengthToSchemesInd\[\]\s*=\s*\{(.*?)\};', ucpp, flags=re.S)
+    body = re.sub(r'//[^\n]*', '', m.group(1)) if m else ''
+    L.append('def lengthToSchemesInd : List Nat := [%s]' % ', '.join(x.strip() for x in body.split(',') if x.strip()))
     L.append('')
     i = info['idna']
     L.append('def idnaOptions : Nat := %s' % i['options'])
